@@ -378,11 +378,18 @@ def r_lexer_preconditions(r, prog):
 def r_parser_entry(r, prog):
     guards.evaluate(r, prog, rule_scopes.guards_parser_entry, 'guards_parser_entry.json', 10)
 
+def r_comment_rule_preconditions(r, prog):
+    """the share of the validators' precondition ledger that concerns doc comments: when a tag that does not fit its element is reported"""
+    guards.evaluate(r, prog, rule_scopes.guards_validators, 'guards_validators.json', 5,
+                    only=lambda p: p.startswith('slicec::validators::comments::') or p.startswith('slicec::validators::operations::'))
+
+
 def run(ctx):
     prog = ctx.prog
     ctx.run_rule('C16.1a', 'T6', 'link patcher: compute and apply loops cover the same node kinds = impls of Commentable', r_node_variants_agree, prog)
     ctx.run_rule('C16.1b', 'T6', 'compute and apply visit overview, params, returns, see in the same order', r_traversal_order_agrees, prog)
     ctx.run_rule('C16.1c', 'T3', 'one queue entry pushed per computed link, one popped per applied link', r_one_entry_per_link, prog)
+    ctx.run_rule('C16.12', 'T13', 'conditions under which a doc-comment tag that does not fit its element is reported (share of the validators\' precondition ledger)', r_comment_rule_preconditions, prog)
     ctx.run_rule('C16.2', 'T10', 'links resolve from the documented element outwards', r_link_scope, prog)
     ctx.run_rule('C16.3', 'T1', 'comment defects are lints: no Error is built in the comment pipeline', r_warnings_never_errors, prog)
     ctx.run_rule('C16.4', 'T3', 'a bad comment never costs the element', r_comment_never_costs_element, prog)
